@@ -31,6 +31,7 @@ type MExp struct {
 	Closed bool    `json:"closed"`
 	Subs   []int   `json:"subs"`
 	Torn   []int   `json:"torn"`
+	Blk    int     `json:"blk"` // HO.tla: 1 = the outer notification of this step has not returned yet
 }
 
 type MStep struct {
@@ -206,6 +207,10 @@ func ReplayMulti(idx int, c *MCase, mode string, out *[]Mismatch) {
 }
 
 func replayMulti(idx int, c *MCase, mode string, out *[]Mismatch) {
+	if isHO(c.M.Op) {
+		replayHO(idx, c, mode, out)
+		return
+	}
 	name := fmt.Sprintf("%s/%d", c.M.G, c.M.K)
 	add0 := func(step int, class, detail string) {
 		if mode == "multi-apply" {
